@@ -18,6 +18,7 @@ def main():
     allp = "--all-props" in args
     ids = [a for a in args if not a.startswith("--")] or sorted(d for d in os.listdir(ROOT + "/seeded") if os.path.isdir(ROOT + "/seeded/" + d))
     claimed = [c["property_id"] for c in json.load(open(ROOT + "/MANIFEST.json"))["checks"]]
+    skip = [a.split("=", 1)[1] for a in args if a.startswith("--skip=")]
     resf = ROOT + "/seeded/RESULTS.json"
     results = json.load(open(resf)) if os.path.exists(resf) else {}
     assert sh("git -C /repo status --short")[1].strip() == "", "/repo not clean"
@@ -28,7 +29,7 @@ def main():
         if rc != 0:
             print(sid, "patch does not apply:", out); continue
         try:
-            props = claimed if allp else ([prop] if prop in claimed else [])
+            props = ([prop] + [p for p in claimed if p != prop and p not in skip]) if allp else ([prop] if prop in claimed else [])
             r = {}
             # build once (first check) then the rest in parallel
             if props:
